@@ -150,3 +150,17 @@ check("C02",
       "Partial: the kernel's flock(2) semantics (one exclusive holder per inode; a waiter is granted the lock of the inode it opened) are assumed in the model, the real "
       "kernel is exercised only on the sampled schedules. Trusted: Lean kernel; sync hook; strace; harness.",
       "DESIGN.md#c02")
+
+check("C19",
+      "Lean 4 invariant proof over every operation sequence of the arena model (alignment, disjointness, stable contents, realloc prefix, scope leave, cleanups once, trap on outer-scope allocation) + in-process differential run of libks/arena.c (ASan and plain) with shadow copies",
+      "Proof (Arena.step, any Params.ok, any op sequence, unbounded frames/scopes/blocks/sizes): Inv holds in every reachable state (inv_run); live blocks are pointer "
+      "aligned, inside their frame, pairwise disjoint; an operation not aimed at a block leaves its bytes unchanged and the block live until its own scope is left "
+      "(contents_stable, survives); realloc returns the common prefix (realloc_prefix); leave removes exactly the scope's blocks, runs its cleanups newest first, "
+      "rewinds the bump pointer with the ': 0' arm dead (leave_exact); a cleanup never runs twice (cleanups_once); any allocating call through a non-innermost scope "
+      "traps (outer_alloc_trapped); arena_malloc never reaches err(1) (never_fails). Correspondence: every primitive arena call of random programs (also those made by "
+      "buffer.c/vector.c through the arena callbacks) is replayed on the model and placement (frame, offset), frame count, bump pointer, live-block count, traps and "
+      "cleanup log are compared, for the ASan build (poison 8) and the plain build (poison 0); the harness oracle checks alignment, disjointness, shadow copies, "
+      "realloc prefix and cleanups on the real memory after every operation.",
+      "Trusted: malloc(3) returns disjoint 16-byte aligned chunks (the model addresses memory as (frame, offset)); ASan poisoning itself is not modelled; scopes are "
+      "well nested (cleanup attribute); size_t overflow of a requested size is not modelled (errx in the code); two arenas are independent model instances.",
+      "DESIGN.md#c19")
